@@ -75,9 +75,29 @@ func c07value(rng *rand.Rand, big bool) []byte {
 
 // c07gen builds a request whose keys fall into exactly nfrag distinct slots.
 func c07gen(rng *rand.Rand, kind string, nfrag, nkeys int, big bool) *c07req {
+	return c07genSlots(rng, kind, rng.Perm(16384)[:nfrag], nkeys, big)
+}
+
+// c07genNodes is c07gen with every fragment on a different node, none of them on avoid.
+func c07genNodes(rng *rand.Rand, env *Env, kind string, nfrag, nkeys int, avoid *Node) *c07req {
+	var slots []int
+	used := map[*Node]bool{avoid: true}
+	for tries := 0; len(slots) < nfrag && tries < 100000; tries++ {
+		s := rng.Intn(16384)
+		o := env.T.Owner(s)
+		if o == nil || used[o.Node] {
+			continue
+		}
+		used[o.Node] = true
+		slots = append(slots, s)
+	}
+	return c07genSlots(rng, kind, slots, nkeys, false)
+}
+
+func c07genSlots(rng *rand.Rand, kind string, slots []int, nkeys int, big bool) *c07req {
+	nfrag := len(slots)
 	tok := newToken("g")
 	r := &c07req{kind: kind, vals: map[string][]byte{}, groups: map[int][]int{}, delCount: map[int]int64{}, msetRep: map[int][]byte{}}
-	slots := rng.Perm(16384)[:nfrag]
 	var mvals [][]byte
 	for i := 0; i < nkeys; i++ {
 		var s int
@@ -370,6 +390,77 @@ func runC07(c *Check, rng *rand.Rand) {
 		}(l)
 	}
 	wg.Wait()
+	// merged replies that have to wait in the client's queue behind a slow earlier request
+	// while further split requests of the same and of another client are being merged
+	for rd := 0; rd < c.Pick(25, 600) && env.P.Alive(); rd++ {
+		cl, err := env.Dial()
+		must(err, "dial")
+		cl2, err := env.Dial()
+		must(err, "dial")
+		slowSlot := rng.Intn(16384)
+		slowNode := env.T.Owner(slowSlot).Node
+		slowTok := Key(slowSlot, newToken("slow"))
+		slowGate := NewGate()
+		script.Plan(slowTok).Gate = slowGate
+		var reqs []*c07req
+		var batch []byte
+		batch = append(batch, Req("GET", slowTok)...)
+		n := 2 + rng.Intn(4)
+		for i := 0; i < n; i++ {
+			r := c07genNodes(rng, env, kinds[rng.Intn(3)], 2+rng.Intn(3), 3+rng.Intn(6), slowNode)
+			r.install(script, false)
+			reqs = append(reqs, r)
+			batch = append(batch, r.raw...)
+		}
+		cl.Send(batch)
+		env.Barrier()
+		// another client's split requests are merged while the first client's results wait
+		var reqs2 []*c07req
+		var batch2 []byte
+		for i := 0; i < 2; i++ {
+			r := c07genNodes(rng, env, kinds[rng.Intn(3)], 2+rng.Intn(3), 3+rng.Intn(6), slowNode)
+			r.install(script, false)
+			reqs2 = append(reqs2, r)
+			batch2 = append(batch2, r.raw...)
+		}
+		cl2.Send(batch2)
+		cl2.WaitReplies(len(reqs2), 5*time.Second)
+		env.Barrier()
+		slowGate.Open()
+		ok := cl.WaitReplies(1+n, 5*time.Second)
+		if !ok {
+			env.Barrier()
+			time.Sleep(time.Second)
+			env.Barrier()
+		}
+		check := func(k *Client, rs []*c07req, off int, who string) {
+			s := k.Snapshot()
+			for i, r := range rs {
+				c.Eval(1)
+				c.Distinct(fmt.Sprintf("queued/%s/%d/%d", r.kind, len(r.keys), len(r.slots)))
+				if off+i >= len(s.Replies) {
+					c.Violate(Violation{Class: "no-merged-reply", Shape: "queued-behind-slow-request", Detail: who + ": merged reply missing", Witness: map[string]interface{}{"request": Q(r.raw)}})
+					return
+				}
+				exp, _ := r.expected()
+				if got := s.Replies[off+i].Val.Raw; !bytes.Equal(got, exp) {
+					c.Violate(Violation{Class: "merged-reply-wrong", Shape: "queued-behind-slow-request",
+						Detail:  fmt.Sprintf("%s: merged %s reply that waited in the queue differs from the reference merge (first difference at offset %d)", who, r.kind, firstDiffB(got, exp)),
+						Witness: map[string]interface{}{"request": Q(r.raw), "expected": Q(exp), "got": Q(got)}})
+					return
+				}
+				c.Count("merged_replies_verified", 1)
+			}
+		}
+		check(cl, reqs, 1, "client behind a slow GET")
+		check(cl2, reqs2, 0, "second client")
+		for _, r := range append(reqs, reqs2...) {
+			r.forget(script)
+		}
+		script.Forget(slowTok)
+		cl.Close()
+		cl2.Close()
+	}
 	c.SetExtra("exhaustive_permutations_up_to_fragments", fmax)
 	c.MinEvals = 100
 }
